@@ -192,7 +192,7 @@ theorem setMultiple_fresh (dp : DocsPositions) (ids : List ID) (ps : List DocPos
           rw [i2 id]
           by_cases hne : id = k
           · subst hne
-            simp [lookup_cons_self, hlk, List.lookup]
+            simp [hlk, List.lookup]
           · rw [lookup_cons_ne dp k id p hne]
             have : (id == k) = false := by simpa using hne
             simp [List.lookup, this]
@@ -204,7 +204,7 @@ theorem setMultiple_fresh (dp : DocsPositions) (ids : List ID) (ps : List DocPos
         obtain ⟨i1, i2⟩ := ih dp ps hnd' hl' hf'
         simp only [setMultiple, hlk, hqp, if_false]
         refine ⟨?_, ?_⟩
-        · simp [i1, List.filter_cons, hlk]
+        · simp [i1, hlk]
         · intro id
           rw [i2 id]
           by_cases hne : id = k
@@ -298,7 +298,7 @@ theorem lookup_zip_isSome (ids : List ID) (ps : List DocPos) (id : ID) (hl : ps.
     | nil => simp at hl
     | cons p ps =>
       by_cases h : id = k
-      · subst h; simp [List.lookup]
+      · subst h; simp
       · have : (id == k) = false := by simpa using h
         simp only [List.zip_cons_cons, List.lookup, this, List.mem_cons, h, false_or]
         exact ih ps (by simpa using hl)
@@ -313,7 +313,7 @@ theorem lookup_zip_mem (ids : List ID) (ps : List DocPos) (id : ID) (p : DocPos)
     | cons p' ps =>
       by_cases hk : id = k
       · subst hk
-        simp [List.lookup] at h
+        simp at h
         subst h; simp
       · have : (id == k) = false := by simpa using hk
         simp only [List.zip_cons_cons, List.lookup, this] at h
@@ -698,7 +698,7 @@ theorem fetch_run (a : Active) (h : List (List Meta)) (hA : AInv a) (hd : Distin
   | nil =>
     cases hl : a.dp.lookup i with
     | none => simp [run, fetch, hl, firstMeta]
-    | some q => simp [run, hl]
+    | some q => simp [run]
   | cons b h ih =>
     have hdb := hd b (by simp)
     have hsb := hs b (by simp)
